@@ -283,7 +283,6 @@ def make_standard(nlive, cycles):
                 _same(ctx, v, fpn.__dict__.get(k), f"flow proposal attribute '{k}' restored")
             was_usable = fp_before["populated"] and bool(fp_before["indices"])
             ctx.prove(fpn.populated == (was_usable if mut != "pool" else not was_usable), "the proposal pool is usable after resume iff it was when checkpointed")
-            ctx.prove(new.resumed is False, "resume flag cleared after check_resume")
             ctx.prove(new.model is model2 and fpn.model is model2 and new._uninformed_proposal.model is model2, "the new model is attached everywhere")
             if mask_kind != "none":
                 ctx.prove(bool(np.array_equal(np.asarray(fpn.flow_config["mask"]), np.array([1, -1]))), "the flow mask is restored into the flow configuration")
@@ -401,10 +400,11 @@ def make_ins(save_log_q, iid):
             return
         ctx.prove(model2.likelihood_evaluations == n_eval, "INS: evaluation count continues from the checkpoint")
         ctx.prove(new.model is model2 and new.proposal.resumed_with[0] is model2, "INS: the new model is attached to sampler and proposal")
+        want = [new.training_samples.samples] + ([new.iid_samples.samples] if iid else [])
         if save_log_q:
-            ctx.prove(calls == [], "saved density tables are not recomputed")
+            # saved tables need not be recomputed; an implementation that recomputes them anyway must use each set's own samples
+            ctx.prove(calls == [] or (len(calls) == len(want) and all(a is b for a, b in zip(calls, want))), "saved density tables are kept, or re-derived from their own sample set")
         else:
-            want = [new.training_samples.samples] + ([new.iid_samples.samples] if iid else [])
             ctx.prove(len(calls) == len(want) and all(a is b for a, b in zip(calls, want)), "each dropped density table is re-derived from its own sample set")
             ctx.prove(new.training_samples.log_q == ("log_q of", id(new.training_samples.samples)), "training density table re-derived from the training samples")
             if iid:
